@@ -83,7 +83,9 @@ def drive(case, with_injection: bool = True, with_edit: bool = True):  # noqa: C
 
     def run_state():
         e = run.engine
-        return (str(e.tags["System State"].get_value()), bool(e._runstate_paused), bool(e._runstate_holding))
+        # the private pause / hold flags are found by role (harness.runstate), not by attribute name
+        from harness import runstate as RS
+        return (str(e.tags["System State"].get_value()), RS.flag(e, "paused"), RS.flag(e, "holding"))
 
     def sig():
         # steps of the interpreter through the injected code: `started` of every node, `completed` of the nodes the
